@@ -37,6 +37,11 @@ type seqExec struct {
 	appendLog                      []appendRec // C09/C15: every data write seen at the disk seam
 	inGC                           bool
 	gcEvents                       []gcEvent
+	fsHook                         func(g *Gen, ev *simrt.FSEvent)
+	inflight                       *Op
+	nontrivial                     *bool
+	noFinalRestart                 bool
+	gcHook                         func(phase string, op Op, begin, end int)
 }
 
 type appendRec struct {
@@ -76,7 +81,12 @@ func (x *seqExec) key(i int) string { return string(x.plan.Keys[i]) }
 
 func (x *seqExec) nowUnix() int64 { return x.g.W.Now().Unix() }
 
-func runSeq(plan *Plan, tape *simrt.Tape) *Outcome {
+func runSeq(plan *Plan, tape *simrt.Tape) *Outcome { return runSeqHooked(plan, tape, nil, nil) }
+
+// runSeqHooked runs the sequential executor; setup may install hooks on the executor before the
+// first generation, post runs after the last generation (crash / corruption engines evaluate
+// their snapshots there).
+func runSeqHooked(plan *Plan, tape *simrt.Tape, setup func(x *seqExec), post func(x *seqExec)) *Outcome {
 	out := &Outcome{Seed: plan.Seed, Prop: plan.Prop}
 	dir := mkWorldDir()
 	defer os.RemoveAll(dir)
@@ -96,6 +106,9 @@ func runSeq(plan *Plan, tape *simrt.Tape) *Outcome {
 	installCollisions(plan)
 	defer func() { hashOverride = nil }()
 	sim.OnFS = x.onFS
+	if setup != nil {
+		setup(x)
+	}
 
 	i := 0
 	finished := false
@@ -170,7 +183,7 @@ func runSeq(plan *Plan, tape *simrt.Tape) *Outcome {
 		}
 		if !finished {
 			x.applyRestart(restartOp)
-		} else if plan.Prop != "C01" && plan.Prop != "C15" {
+		} else if plan.Prop != "C01" && plan.Prop != "C15" && !x.noFinalRestart {
 			// one more clean reopen with all index files intact
 			finished = false
 			restartOp = &Op{Kind: "restart"}
@@ -197,9 +210,15 @@ func runSeq(plan *Plan, tape *simrt.Tape) *Outcome {
 			finished = true
 		}
 	}
+	if post != nil {
+		post(x)
+	}
 	out.absorb(sim)
 	out.Violation = x.viol
 	out.Nontrivial = x.writes >= 3 && x.hits >= 2
+	if x.nontrivial != nil {
+		out.Nontrivial = *x.nontrivial
+	}
 	switch plan.Prop {
 	case "C02":
 		out.Nontrivial = out.Nontrivial && x.restartsDone >= 1
@@ -236,6 +255,9 @@ func (x *seqExec) onFS(g *Gen, ev *simrt.FSEvent) {
 	}
 	if x.inGC && ev.Tag == "gc" {
 		x.gcEvents = append(x.gcEvents, gcEvent{ev.Kind, ev.Path, ev.Off, len(ev.Data)})
+	}
+	if x.fsHook != nil {
+		x.fsHook(g, ev)
 	}
 }
 
@@ -274,6 +296,8 @@ func (x *seqExec) checkRouting(ev *simrt.FSEvent) {
 
 func (x *seqExec) exec(op Op) {
 	g := x.g
+	x.inflight = &op
+	defer func() { x.inflight = nil }()
 	switch op.Kind {
 	case "set":
 		x.doSet(op)
@@ -716,6 +740,9 @@ func (x *seqExec) doGC(op Op) {
 	x.inGC = true
 	x.gcEvents = nil
 	g.W.TagNext = "gc"
+	if x.gcHook != nil {
+		x.gcHook("before", op, 0, 0)
+	}
 	begin, end, err := g.H.GC(b, op.GCStart, op.GCEnd, op.GCDays, op.Merge, op.Pretend)
 	g.W.TagNext = ""
 	if err != nil || op.Pretend {
@@ -744,6 +771,9 @@ func (x *seqExec) doGC(op Op) {
 		return
 	}
 	x.gcRuns++
+	if x.gcHook != nil {
+		x.gcHook("after", op, begin, end)
+	}
 	hist := g.H.VerifGCHistory(b)
 	if len(hist) > 0 {
 		st := hist[len(hist)-1]
